@@ -223,6 +223,8 @@ class Forwarding:
                         m = self.access_of(fa, r, n)
                         if m is None or m in out or m.attr in self.own.exclude_attrs:
                             continue
+                        if m.attr not in self.own.types.of(C):
+                            continue  # a property / inherited external attribute, not constructor-assigned state
                         if m.kind == "attr" and m.attr in typed_attrs:
                             continue
                         if m.kind == "attr" and m.attr not in self.own.types.of(C):
@@ -304,6 +306,7 @@ class Forwarding:
     def forwarding_nodes(self, C: ClassInfo, fi: FuncInfo, fa: FA, member: Member, hooks: Set[str],
                          needed: List[ClassInfo], arg_ok: Optional[Callable], depth: int) -> Tuple[Set[int], list]:
         nodes: Set[int] = set()
+        self._delegates = set()
         notes = []
         for n, call in fa.calls():
             f = call.func
@@ -317,6 +320,7 @@ class Forwarding:
                         ok, _ = self.check(C, tgt, member, hooks, needed, arg_ok, depth + 1)
                         if ok:
                             nodes.add(n)
+                            self._delegates.add(n)
                     continue
                 m = self.access_of(fa, f.value, n)
                 if m == member:
@@ -333,6 +337,7 @@ class Forwarding:
                         ok, _ = self.check(C, tgt, member, hooks, needed, arg_ok, depth + 1)
                         if ok:
                             nodes.add(n)
+                            self._delegates.add(n)
         return nodes, notes
 
     def check(self, C: ClassInfo, fi: FuncInfo, member: Member, hooks: Set[str], needed: List[ClassInfo],
@@ -348,12 +353,21 @@ class Forwarding:
             if assume:
                 fa = fa.prune(assume)
         nodes, notes = self.forwarding_nodes(C, fi, fa, member, hooks, needed, arg_ok, depth)
+        delegates = set(self._delegates) & nodes
         cfg = fa.cfg
         through: Set[int] = set()
         if member.kind == "attr":
-            through = nodes
+            through = set(nodes)
+            # a complete loop over a list attribute that holds this member (self.ts = [self.a, self.b])
+            for lst, attrs in self.own.types.aliases(C).items():
+                if member.attr in attrs and depth < 4:
+                    ok, _ = self.check(C, fi, Member(lst, "elem"), hooks, needed, arg_ok, depth + 1, assume, src)
+                    if ok:
+                        return True, f"{fi.qualname} forwards to every element of self.{lst}, which holds {member}"
         else:
-            # loop members: the loop's iter node counts if every iteration forwards
+            # loop members: the loop's iter node counts if every iteration forwards; calls that delegate
+            # to a method which forwards to the whole member count as they are
+            through = set(delegates)
             for n, nd in cfg.nodes.items():
                 if nd.kind != "next":
                     continue
